@@ -118,7 +118,8 @@ func (cdd *CircularDependencyDetector) resetState() {
 // findStronglyConnectedComponents implements Tarjan's algorithm
 func (cdd *CircularDependencyDetector) findStronglyConnectedComponents() {
 	// Run Tarjan's algorithm on each unvisited node
-	for moduleName := range cdd.graph.Nodes {
+	// (in sorted order so that components are found in a deterministic order)
+	for _, moduleName := range cdd.graph.GetModuleNames() {
 		if _, visited := cdd.indices[moduleName]; !visited {
 			cdd.strongConnect(moduleName)
 		}
@@ -138,7 +139,7 @@ func (cdd *CircularDependencyDetector) strongConnect(module string) {
 
 	// Consider successors of the current module
 	if node := cdd.graph.Nodes[module]; node != nil {
-		for dependency := range node.Dependencies {
+		for _, dependency := range sortedModuleSet(node.Dependencies) {
 			if _, visited := cdd.indices[dependency]; !visited {
 				// Successor has not yet been visited; recurse on it
 				cdd.strongConnect(dependency)
@@ -206,7 +207,11 @@ func (cdd *CircularDependencyDetector) processComponents() []*CircularDependency
 		if circularDeps[i].Severity != circularDeps[j].Severity {
 			return cdd.severityOrder(circularDeps[i].Severity) > cdd.severityOrder(circularDeps[j].Severity)
 		}
-		return circularDeps[i].Size > circularDeps[j].Size
+		if circularDeps[i].Size != circularDeps[j].Size {
+			return circularDeps[i].Size > circularDeps[j].Size
+		}
+		// Components are disjoint and sorted, so the first module is a unique tie-breaker
+		return circularDeps[i].Modules[0] < circularDeps[j].Modules[0]
 	})
 
 	return circularDeps
@@ -225,7 +230,7 @@ func (cdd *CircularDependencyDetector) findDependencyChains(modules []string) []
 	// Find direct dependencies between modules in the component
 	for _, from := range modules {
 		if node := cdd.graph.Nodes[from]; node != nil {
-			for to := range node.Dependencies {
+			for _, to := range sortedModuleSet(node.Dependencies) {
 				if moduleSet[to] {
 					// Find the shortest path from 'from' to 'to' within the component
 					path := cdd.findPathInComponent(from, to, moduleSet)
@@ -263,7 +268,8 @@ func (cdd *CircularDependencyDetector) findPathInComponent(from, to string, modu
 		current := path[len(path)-1]
 
 		if node := cdd.graph.Nodes[current]; node != nil {
-			for dependency := range node.Dependencies {
+			// Sorted order so that the same shortest path is found on every run
+			for _, dependency := range sortedModuleSet(node.Dependencies) {
 				if !moduleSet[dependency] {
 					continue // Skip modules outside the component
 				}
